@@ -29,7 +29,9 @@ func init() {
 	vlib.Register(&vlib.Prop{
 		ID:    "C06",
 		Level: "fault_enumeration",
-		Cases: func(tier string) int { return forcedCells() + lifecycleCells(tier) + vlib.TierN(tier, 480, 120000) },
+		Cases: func(tier string) int {
+			return forcedCells() + lifecycleCells(tier) + refusedCells(tier) + vlib.TierN(tier, 480, 120000)
+		},
 		Rule: "forced part (all 432 cells in both tiers): a message is parked at one of 6 points of its path {inside the subscriber decorator, received but not dispatched, dispatched but not started, inside the handler (gate), before publishing, before settlement} " +
 			"x {1,2,8} concurrent Close callers x subscriber {scripted, scripted that emits one more message from its Close(), scripted that ignores the context, scripted whose Close() waits until every delivered message is settled (like a broker client draining in-flight messages), GoChannel buffer 0, GoChannel buffer 4} x CloseTimeout {1 h, 30 ms with the handler held longer} " +
 			"x {handleClose goroutine parked until Close signalled and Run cancelled the context, not parked}; Close is called while the message is parked, then the park is released, the handler is held at a gate until every Close call returned or the process is quiescent, then the gate opens. " +
@@ -41,6 +43,11 @@ func init() {
 			"Run parked between RunHandlers returning and Running() closing (all handlers consuming, router 'not running' yet) {a handler held inside an invocation, idle}. " +
 			"CloseTimeout is 1 h in the start-up scenarios (Close has to succeed) and 30 ms after a failed Run / before Run (there the unchanged router reports a time-out, which the oracle accepts: it only forbids nil while an invocation is in progress or before a later start). " +
 			"After everything returned, one more Close call is made (repeated Close) and every handler's subscription gets one late message: it must not be handled if any Close call had returned nil. " +
+			"refused-call part (90 cells per round, 1 round quick / 3 rounds thorough; later rounds make the call once or twice): an API call that fails as documented is made on the router and recovered/ignored by the caller, then Close follows; the statement has to hold as if the call had not been made: " +
+			"{AddHandler under a taken name (panics with DuplicateHandlerNameError, recovered), AddNoPublisherHandler under a taken name (same), a second Run (error), RunHandlers before Run (error)} x " +
+			"{before Run (Run, then Close), on a router that is never run (CloseTimeout 30 ms: every Close call has to return, the unchanged router reports the time-out), while Run's start-up is parked inside a Subscribe call or right after a handler was marked started (AddHandler waits behind the start-up and is refused afterwards), " +
+			"on the running idle router, right before Close with a handler inside an invocation (held at a gate)} (15 combinations that exist) x {1,2,8} concurrent Close callers x {scripted subscribers, one shared GoChannel}; 1..3 handlers, the duplicated name and the busy/idle state at Close are drawn per case; " +
+			"then the repeated Close and the late messages as above (a handler the router started for a refused registration gets one too). A call that is accepted instead of refused makes the case 'unreached'. " +
 			"random part: routers of 1..3 handlers, 1..10 messages, handlers of random duration, Close (1..3 callers) or Run-context cancel at a random moment, scripted or GoChannel subscribers. " +
 			"Oracle: each Close caller samples, right after Close returned nil, every emitted message: a message whose handler was entered must have left the handler and be settled; no handler entry stamp may be later than a nil-returning Close's return stamp; " +
 			"never-handled messages are never acked; every Close call and Run return (quiescence detector); with a handler held beyond CloseTimeout every call returns and none returns nil while it runs; Run does not return while a handler runs unless Close timed out; each handler's subscriber and publisher saw Close(). " +
@@ -49,6 +56,7 @@ func init() {
 			"'in progress' is observed as: handler function entered and (not yet left, or the consumed message not yet settled) at the sampling instant taken by the Close caller after Close returned",
 			"for GoChannel subscribers the consumed copy is visible only once the handler saw it; 'never handled => never acked' is checked for scripted subscribers only",
 			"30 ms CloseTimeout cases are judged only by what they must not do (return nil while a handler runs; hang): no upper bound on the measured duration",
+			"refused calls: what 'fails as documented' means is taken from the godoc (DuplicateHandlerNameError: 'is sent in a panic when you try to add a second handler with the same name') and from the errors Run ('router is already running') and RunHandlers ('you can't call RunHandlers on non-running router') return; the refusal itself is a precondition of the case, not a demand of the oracle; a refused call that has not returned when Close is called (AddHandler waiting for the router's lock) does not excuse a Close call that never returns",
 			"life-cycle corners: after a failed Run and for Close before Run nothing is demanded of Run's own result, and Close() on the subscribers/publishers is demanded only where Close found a router whose start-up succeeded (a Close that reports the time-out error promises nothing about handlers); which handler a failing start-up reaches first is decided by Go's map iteration, so the failed-Run set-up is repeated (at most 10 times) until a handler was started before the failing one",
 		},
 		Run: run,
@@ -61,6 +69,9 @@ func run(e *vlib.Env) vlib.Result {
 	}
 	if e.Idx < forcedCells()+lifecycleCells(e.Tier) {
 		return lifecycle(e, e.Idx-forcedCells())
+	}
+	if e.Idx < forcedCells()+lifecycleCells(e.Tier)+refusedCells(e.Tier) {
+		return lcRefused(e, e.Idx-forcedCells()-lifecycleCells(e.Tier))
 	}
 	return random(e)
 }
